@@ -169,9 +169,14 @@ def ensure_wt(wt, build=True):
 def apply_mut(wt, c):
     p = os.path.join(wt, c["file"])
     lines = open(p).read().split("\n")
-    if lines[c["line"] - 1] != c["before"]:
-        return False
-    lines[c["line"] - 1] = c["after"]
+    k = c["line"] - 1
+    if k >= len(lines) or lines[k] != c["before"]:
+        # the tree may have moved on by a fix commit: accept the same line a few lines away
+        near = [j for j in range(max(0, k - 6), min(len(lines), k + 7)) if lines[j] == c["before"]]
+        if len(near) != 1:
+            return False
+        k = near[0]
+    lines[k] = c["after"]
     open(p, "w").write("\n".join(lines))
     return True
 
